@@ -72,6 +72,8 @@ func main() {
 		globalsMain()
 	case "c17-race":
 		c17RaceMain()
+	case "probe-views":
+		probeViewsMain()
 	case "c17-globals":
 		c17GlobalsMain()
 	case "c17-cold":
